@@ -216,7 +216,9 @@ Record Inv (s : db) : Prop := {
   inv_lk_nodup : forall k, NoDup (lk_list s k);
   (* the state set of a diff layer is a map: no key twice *)
   inv_keys_nodup : forall r lid r' i n ss p, tget s r = Some lid ->
-      hget s lid = Some (Diff r' i n ss p) -> NoDup (map fst (kv_data ss))
+      hget s lid = Some (Diff r' i n ss p) -> NoDup (map fst (kv_data ss));
+  (* tree.layers is a map *)
+  inv_layers_nodup : NoDup (map fst (t_layers (tr s)))
 }.
 
 Lemma root_of_fun s lid r1 r2 : root_of s lid r1 -> root_of s lid r2 -> r1 = r2.
@@ -455,6 +457,7 @@ Proof.
   - intros r e H. cbn in H. discriminate.
   - intros k. constructor.
   - intros r lid r' i n ss p H Hd. destruct (init_tget _ _ _ H) as [-> ->]. cbn in Hd. discriminate.
+  - cbn. constructor; [intros []|constructor].
 Qed.
 
 (* ---- the defect repaired by /repo commit d78fb6c457, on the model without the re-link ------
